@@ -154,6 +154,14 @@ def main(checks):
     if a.prop not in checks:
         print(f"unknown property {a.prop}; known: {sorted(checks)}")
         return 2
+    # The library under test runs inside this process.  A defect in it (say an array length read from the wrong place) can ask for
+    # unbounded memory; the limit turns that into a MemoryError of the observed call - an observation - instead of taking the
+    # machine down.  TLC runs in child processes that lift the limit again.
+    import resource
+
+    lim = int(os.environ.get("VERIF_HARNESS_MEM_GB", "12")) << 30
+    hard = resource.getrlimit(resource.RLIMIT_AS)[1]
+    resource.setrlimit(resource.RLIMIT_AS, (lim if hard == resource.RLIM_INFINITY else min(lim, hard), hard))
     try:
         if a.replay:
             return checks[a.prop].replay(a.replay)
